@@ -887,6 +887,14 @@ func subReaderNext() mon.Sub {
 			side := []ref.Side{ref.SideServer, ref.SideClient}[c.I%2]
 			f1 := gen.Build(s1, side, c.Rng, true)
 			f2 := gen.Build(s2, side, c.Rng, true)
+			if c.I%3 == 2 {
+				// a reader that takes frames of either direction (no side bit in its State: a proxy, a traffic analyser):
+				// the first message's frames are masked and the second's are not, or the other way round - control
+				// frames between fragments included. What the reader keeps from message to message is not the masking.
+				f1 = gen.Build(s1, side, c.Rng, true)
+				f2 = gen.Build(s2, []ref.Side{ref.SideClient, ref.SideServer}[c.I%2], c.Rng, true)
+				side = ref.SideNone
+			}
 			// make the first message's text end in the middle of a code point when discarded after one byte
 			for i := range f1 {
 				if !ref.IsControl(f1[i].H.Op) && len(f1[i].Payload) == 3 {
